@@ -94,6 +94,12 @@ def run(e: Engine, rep: Report):
              'on the attempt path, where the clients killed may hold '
              'requests that nobody settles any more')
     l12(e, rep)
+    rep.rule('L13', 'an HTTP client that goes on to the next request after '
+             'a failed exchange has dropped its connection first: no except '
+             'arm of _run resumes the polling loop with self.conn as the '
+             'failed exchange left it (http.client keeps a half-done '
+             'request: every later message on that client fails unsent)')
+    l13(e, rep)
 
 
 
@@ -126,6 +132,24 @@ def l1_l2(e: Engine, rep: Report):
                   'RelayPool._add_client: the size bound of _check_idle '
                   'does not apply to it', loc=f.loc(n),
                   reason='only inside _add_client')
+    # _add_client handed on as a value (spawn_later / a callback): it runs
+    # when the test that allowed it no longer says anything
+    for f in p.functions.values():
+        if not f.module.name.startswith('slimta.relay'):
+            continue
+        called = {id(n.func) for n in walk_own(f.node)
+                  if isinstance(n, ast.Call)}
+        for x in walk_own(f.node):
+            if isinstance(x, ast.Attribute) and x.attr == '_add_client' and \
+                    isinstance(x.ctx, ast.Load) and id(x) not in called:
+                rep.evaluations += 1
+                rep.bad('L1', f.qname, 'deferred `%s`' % ast.unparse(x),
+                        '_add_client is handed on to run later (timer / '
+                        'callback) instead of being called under the test '
+                        'that guards it: by the time it runs another '
+                        'attempt may have started a client already, and the '
+                        'pool holds more clients than pool_size',
+                        loc=f.loc(x))
     allowed = {POOL + '._check_idle', POOL + '._remove_client'}
     for f, n in callers:
         rep.evaluations += 1
@@ -850,3 +874,52 @@ def l12(e: Engine, rep: Report, rule: str = 'L12'):
     if n < 1:
         rep.error('anchor vanished: kill sites of the relay modules (%d < 1)'
                   % n)
+
+
+# --------------------------------------------------------------------- L13
+def l13(e: Engine, rep: Report):
+    HC = 'slimta.relay.http.HttpRelayClient'
+    ctx = e.method_ctx(HC, '_run')
+    g = e.build(ctx, inline=e.inline_same_self(
+        deny=['poll', '_handle_request', '_process_response']), max_depth=3,
+        raises=lambda b, n, r: {'ANY'} if n.kind == 'call' and
+        e.call_name(n) in ('_handle_request',) else set())
+    where = ctx.func.qname
+    rep.functions.add(where)
+    polls = [n for n in g.calls() if e.call_name(n) == 'poll']
+    hs = [h for h in g.of_kind('handler')]
+    rep.evaluations += 1
+    if not polls:
+        rep.unknown('L13', where, 'failed exchange drops the connection',
+                    'no poll() in the client loop', loc=ctx.func.loc())
+        return
+
+    def step(n, label, st):
+        if isinstance(label, tuple):
+            return st
+        if n.kind == 'stmt' and isinstance(n.ast, ast.Assign) and any(
+                (path_of(t, n.frame) or '') == 'self.conn'
+                for t in n.ast.targets):
+            return True
+        if n.kind in ('call', 'call_enter') and e.call_name(n) in (
+                '_close_conn', '_discard_conn', '_new_conn'):
+            return True
+        return st
+    bad = None
+    for h in hs:
+        w = dataflow.typestate_witness(
+            g, False, step, lambda n, st: n in polls and not st, start=h)
+        if w:
+            bad = (h, w)
+            break
+    rep.check(bad is None, 'L13', where,
+              'no arm resumes the loop with the connection as it was',
+              'after `%s` the client polls for the next request without '
+              'having closed or replaced self.conn: the HTTPConnection is '
+              'still in the middle of the failed request, so the next '
+              'message is refused by http.client itself and reported as '
+              'failed although the server is fine' % (
+                  bad[0].text(40) if bad else ''),
+              loc=bad[0].loc() if bad else ctx.func.loc(),
+              reason='every arm ends the loop or resets the connection',
+              witness=dataflow.render_path(bad[1], 12) if bad else None)
